@@ -52,7 +52,8 @@ ObsAcc == [data |-> Pairs(acc)]
 Obs == CASE Which = "ctr" -> ObsCtr [] Which = "sub" -> ObsSub [] Which = "tbl" -> ObsTbl
          [] Which = "num" -> ObsNum [] Which = "acc" -> ObsAcc
 AccCfgOut == [groups |-> [j \in 1..Len(AccCfg.groups) |-> <<AccCfg.groups[j].name, PrintExpr(AccCfg.groups[j].e)>>],
-              cols |-> [j \in 1..Len(AccCfg.cols) |-> <<AccCfg.cols[j].name, AccCfg.cols[j].init, PrintExpr(AccCfg.cols[j].e)>>]]
+              cols |-> [j \in 1..Len(AccCfg.cols) |-> <<AccCfg.cols[j].name, AccCfg.cols[j].init, PrintExpr(AccCfg.cols[j].e)>>],
+              sort |-> [j \in 1..Len(AccCfg.sort) |-> PrintExpr(AccCfg.sort[j])]]
 
 \* ---- the machine with its history ---------------------------------------------
 NoDec == [ok |-> FALSE, keys |-> <<>>, inc |-> 0]
